@@ -59,6 +59,15 @@ NON_TENSORS = [
     {"opt": {"seq": T(F32, ())}},
 ]
 POOL = TENSORS + NON_TENSORS
+# more types for the seeded long lists of the thorough tier
+EXTRA_TYPES = [
+    {"seq": {"seq": T(F32, (2,))}},  # nested sequence
+    {"opt": T(I64, None)},  # optional of unknown shape
+    {"opt": {"seq": T(BOOL, (2, None))}},
+    T(8, (2,)),  # string tensor
+    T(F64, (1, 2, 3, 4)),  # rank 4
+    T(I32, (None,)),
+]
 SEQS = [{"seq": T(F32, (3,))}, {"seq": T(I64, None)}, {"seq": T(BOOL, (2, 2))}]
 
 
@@ -746,10 +755,20 @@ def fallback_resolves():
 def gen_cases(ck, info):
     rng = ck.rng
     defs, _ = defining_modules(info)
+    defs0 = defs  # the modules that define the constructors
     cases = []
     maxlen_exh = 3  # Loop, SequenceMap
+    maxlen_loop = ck.pick(3, 4)
     maxlen_scan = ck.pick(2, 3)
-    longer = ck.pick(0, 150)  # seeded lists of length 4-5 (thorough)
+    longer = ck.pick(0, 1500)  # seeded lists of length 4-5 over the larger type pool (thorough)
+    pool_x = POOL + EXTRA_TYPES
+    tensors_x = TENSORS + [d for d in EXTRA_TYPES if "t" in d]
+    if ck.thorough:  # every shipped module, also the ones that only re-export the constructor
+        defs = {}
+        for m_, c_, _d in info["resolves"]:
+            defs.setdefault(c_, [])
+            if m_ not in defs[c_]:
+                defs[c_].append(m_)
 
     def lists_upto(pool, n):
         for k in range(n + 1):
@@ -761,12 +780,12 @@ def gen_cases(ck, info):
     pool_u = POOL + [None]
     # ---- Loop: carried values of every kind
     for mod in defs.get("loop", []):
-        for car in lists_upto(POOL, maxlen_exh):
+        for car in lists_upto(POOL, maxlen_loop if mod in defs0.get("loop", []) else 2):
             cases.append(finish_case({"mod": mod, "ctor": "loop", "lists": {"v_initial": car}}, rng))
         for _ in range(ck.pick(60, 300)):
             cases.append(finish_case({"mod": mod, "ctor": "loop", "lists": {"v_initial": rand_list(pool_u, 3)}}, rng))
         for _ in range(longer):
-            cases.append(finish_case({"mod": mod, "ctor": "loop", "lists": {"v_initial": rand_list(POOL, rng.randrange(4, 6))}}, rng))
+            cases.append(finish_case({"mod": mod, "ctor": "loop", "lists": {"v_initial": rand_list(pool_x, rng.randrange(4, 6))}}, rng))
         for k in range(1, 4):
             cases.append(finish_case({"mod": mod, "ctor": "loop", "lists": {"v_initial": rand_list(POOL, k - 1) + [None]}}, rng))
         # ONNX: `cond` is a scalar; the body hands the condition it received on
@@ -790,14 +809,14 @@ def gen_cases(ck, info):
                     if all(len(d["s"]) >= 2 for d in scans):
                         yield {"mod": mod, "ctor": "scan", "lists": {"initial_state_and_scan_inputs": ops},
                                "ints": {"num_scan_inputs": m}, "axes": [1] * m}
-        for ops in lists_upto(TENSORS, maxlen_scan):
+        for ops in lists_upto(TENSORS, maxlen_scan if mod in defs0.get("scan", []) else 2):
             for c in scan_variants(ops):
                 cases.append(finish_case(c, rng))
         for _ in range(ck.pick(40, 0)):
             for c in scan_variants(rand_list(TENSORS, 3)):
                 cases.append(finish_case(c, rng))
         for _ in range(longer // 3):
-            for c in scan_variants(rand_list(TENSORS, rng.randrange(4, 6))):
+            for c in scan_variants(rand_list(tensors_x, rng.randrange(4, 6))):
                 cases.append(finish_case(c, rng))
         for _ in range(ck.pick(25, 200)):  # operands that are not tensors / of unknown type
             ops = rand_list(pool_u, rng.randrange(1, 4))
@@ -806,12 +825,12 @@ def gen_cases(ck, info):
     # ---- SequenceMap
     for mod in defs.get("sequence_map", []):
         for s in SEQS:
-            for ex in lists_upto(TENSORS + SEQS, maxlen_exh):
+            for ex in lists_upto(TENSORS + SEQS, maxlen_exh if mod in defs0.get("sequence_map", []) else 2):
                 cases.append(finish_case({"mod": mod, "ctor": "sequence_map", "singles": {"input_sequence": s},
                                           "lists": {"additional_inputs": ex}}, rng))
         for _ in range(longer):
             cases.append(finish_case({"mod": mod, "ctor": "sequence_map", "singles": {"input_sequence": rng.choice(SEQS)},
-                                      "lists": {"additional_inputs": rand_list(TENSORS + SEQS, rng.randrange(4, 6))}}, rng))
+                                      "lists": {"additional_inputs": rand_list(tensors_x + SEQS + [{"seq": T(8, (2,))}], rng.randrange(4, 6))}}, rng))
         for _ in range(ck.pick(25, 200)):  # invalid operands
             cases.append(finish_case({"mod": mod, "ctor": "sequence_map",
                                       "singles": {"input_sequence": rng.choice(SEQS + [T(F32, (3,)), None, {"opt": SEQS[0]}])},
@@ -1116,7 +1135,7 @@ def _run(ck: core.Check, env: Env, info):
     info = dict(info, resolves=resolves)
     cases = gen_cases(ck, info)
     # which cases also get the later steps (builds, inference, value propagation)
-    n_steps = ck.pick(260, 2500)
+    n_steps = ck.pick(260, 3000)
     idx = list(range(len(cases)))
     def steppable(c):
         ds = [d for v in c.get("lists", {}).values() for d in v] + list(c.get("singles", {}).values())
@@ -1184,7 +1203,7 @@ def _run(ck: core.Check, env: Env, info):
     n_ort = 0
     for mod in env.mods:
         for prog in ORT_PROGS:
-            for rep in range(ck.pick(1, 4)):
+            for rep in range(ck.pick(1, 8)):
                 seed = rng.randrange(1 << 30)
                 n_ort += 1
                 ck.count(("ort", mod, prog))
